@@ -339,8 +339,11 @@ func checkC08(c *Case, s *Stats) error {
 	return nil
 }
 
-// ladderKeys builds a key set whose single-branch run has exactly L nibbles,
-// at one of four placements.
+// ladderPlacements is the number of shapes ladderKeys knows.
+const ladderPlacements = 9
+
+// ladderKeys builds a key set whose single-branch run has exactly L nibbles.
+// The placement decides what precedes the run and which kind of node follows it.
 func ladderKeys(L int, place int, fill byte) []string {
 	// run of L nibbles: L/2 bytes of fill, plus a half byte when L is odd
 	run := strings.Repeat(string([]byte{fill}), L/2)
@@ -350,8 +353,32 @@ func ladderKeys(L int, place int, fill byte) []string {
 	} else {
 		a, b = run+string([]byte{fill&0xf0 | 0x01}), run+string([]byte{fill&0xf0 | 0x02}) // branch on the low nibble
 	}
+	// fan returns n keys that continue the run with n distinct branches
+	fan := func(prefix string, n int) []string {
+		var keys []string
+		for i := 0; i < n; i++ {
+			if L%2 == 0 {
+				keys = append(keys, prefix+run+string([]byte{byte(0x11 * (i % 15)), byte(i)})+"t")
+			} else {
+				// the run ends on a half byte: distinct low nibbles, then distinct next bytes
+				keys = append(keys, prefix+run+string([]byte{fill&0xf0 | byte(i%16), byte(i)})+"t")
+			}
+		}
+		return keys
+	}
+	fanBytes := func(prefix string, n int) []string {
+		var keys []string
+		for i := 0; i < n; i++ {
+			if L%2 == 0 {
+				keys = append(keys, prefix+run+string([]byte{byte(7 + 13*i)})+"t")
+			} else {
+				keys = append(keys, prefix+run+string([]byte{fill&0xf0 | byte(i%16)})+string([]byte{byte(7 + 13*i)}))
+			}
+		}
+		return keys
+	}
 	switch place {
-	case 0: // at the root
+	case 0: // at the root, followed by a two-way 17-bit node
 		return []string{a, b}
 	case 1: // below a 257-bit node: 12 distinct first bytes
 		var keys []string
@@ -362,7 +389,27 @@ func ladderKeys(L int, place int, fill byte) []string {
 		return uniqSorted(keys)
 	case 2: // below a 17-bit node
 		return uniqSorted([]string{"\x01", "\x21" + a, "\x21" + b})
-	default: // as a leaf tail: the run follows the branch
+	case 3: // as a leaf tail: the run follows the branch
 		return uniqSorted([]string{"\x01", "\x02" + run})
+	case 4: // at the root, followed by a 257-bit node (12 distinct next bytes)
+		return uniqSorted(fanBytes("", 12))
+	case 5: // below a 257-bit node, followed by another 257-bit node
+		var keys []string
+		for i := 0; i < 11; i++ {
+			keys = append(keys, string([]byte{byte(0x10 + i)}))
+		}
+		keys = append(keys, fanBytes("\xf0", 14)...)
+		return uniqSorted(keys)
+	case 6: // at the root, followed by a 17-bit node with many labels
+		return uniqSorted(fan("", 15))
+	case 7: // followed by a node that has the end-of-key label: the run itself is a key
+		if L%2 == 1 {
+			return []string{a, b}
+		}
+		return uniqSorted([]string{run, a, b})
+	default: // three levels: 17-bit node, run, 257-bit node, run, leaves
+		keys := fanBytes("\x05", 11)
+		keys = append(keys, "\x06", "\x05"+run+"\x07"+run+"a", "\x05"+run+"\x07"+run+"b")
+		return uniqSorted(keys)
 	}
 }
